@@ -21,18 +21,14 @@ FiniteAll(t, ws) == \A i \in 1..3 : I!IsFinite(I!FmtOf(t), I!Dec(t, ws[i]))
 \* proximity clause additionally needs every product t*dir_i below max/4.
 Limit(t) == D!Pow2(I!Emax(I!FmtOf(t)) - 2)
 ParOK(t, c) == D!DCmpAbs(c[1], D!DMul(Limit(t), c[2])) < 0
-\* Judged scope for extreme inputs: on every moving axis either both plane parameters
-\* are representable, or neither is and the origin lies strictly inside that slab (the
-\* axis is then effectively parallel and constrains nothing).  Other records - origin
-\* exactly on a face with a denormal component, or outside a slab it can only reach at
-\* an unrepresentable parameter - are counted as skipped (see DESIGN.md, C14: the code
-\* saturates such parameters to TMAX, and its answers there are not judged).
-MixedAxis(t, bx, pos, dir) ==
-    \E i \in Axes :
-       /\ ~D!DIsZero(dir[i])
-       /\ LET a == ParOK(t, Frac(D!DSub(bx.mn[i], pos[i]), dir[i]))
-               b == ParOK(t, Frac(D!DSub(bx.mx[i], pos[i]), dir[i]))
-           IN  ~((a /\ b) \/ (~a /\ ~b /\ D!DLt(bx.mn[i], pos[i]) /\ D!DLt(pos[i], bx.mx[i])))
+\* Judged scope for extreme inputs: decisions that are STABLE.  A hit is required when the ray also hits the box shrunk by a
+\* relative 2^-20 on every side (and the first-contact parameter is representable); a miss is required when it also misses
+\* the box grown by the same amount.  In between - grazing a face, edge or corner within that margin, flat boxes - the exact
+\* answer flips under a perturbation far below anything the inputs can express for directions with denormal or huge
+\* components, and the code's answer is not judged (the integer-lattice records judge grazing contact exactly).
+Margin(bx, pos, i) == D!DScale(D!DAdd(D!DOne, D!DAdd(D!DAbs(bx.mn[i]), D!DAdd(D!DAbs(bx.mx[i]), D!DAbs(pos[i])))), -20)
+Resize(bx, pos, sgn) == [mn |-> [i \in Axes |-> IF sgn > 0 THEN D!DSub(bx.mn[i], Margin(bx, pos, i)) ELSE D!DAdd(bx.mn[i], Margin(bx, pos, i))],
+                         mx |-> [i \in Axes |-> IF sgn > 0 THEN D!DAdd(bx.mx[i], Margin(bx, pos, i)) ELSE D!DSub(bx.mx[i], Margin(bx, pos, i))]]
 ProdOK(t, c, dir) == \A i \in Axes : D!DCmpAbs(D!DMul(c[1], dir[i]), D!DMul(Limit(t), c[2])) < 0
 
 UBits(t) == I!FmtOf(t).p - 1
@@ -73,14 +69,15 @@ RayOK(r) ==
     LET bx == [mn |-> Vals(r.t, r.mn), mx |-> Vals(r.t, r.mx)]
         pos == Vals(r.t, r.pos)
         dir == Vals(r.t, r.dir)
-        hit == Hit(bx, pos, dir)
-        lhit == LineHit(bx, pos, dir)
-        hitScoped == hit /\ ParOK(r.t, FirstContact(bx, pos, dir))
-        lhitScoped == lhit /\ ParOK(r.t, Entry(bx, pos, dir)) /\ ParOK(r.t, Exit(bx, pos, dir))
-    IN  MixedAxis(r.t, bx, pos, dir) \/
-        /\ (~hit => r.hit = 0 /\ r.hit3 = 0)
+        inner == Resize(bx, pos, -1)
+        outer == Resize(bx, pos, 1)
+        hitIn == Hit(inner, pos, dir) /\ Hit(bx, pos, dir)
+        lhitIn == LineHit(inner, pos, dir) /\ LineHit(bx, pos, dir)
+        hitScoped == hitIn /\ ParOK(r.t, FirstContact(bx, pos, dir))
+        lhitScoped == lhitIn /\ ParOK(r.t, Entry(bx, pos, dir)) /\ ParOK(r.t, Exit(bx, pos, dir))
+    IN  /\ (~Hit(outer, pos, dir) => r.hit = 0 /\ r.hit3 = 0)
         /\ (hitScoped => r.hit = 1 /\ r.hit3 = 1)
-        /\ (~lhit => r.ee = 0)
+        /\ (~LineHit(outer, pos, dir) => r.ee = 0)
         /\ (lhitScoped => r.ee = 1)
         /\ (hitScoped /\ r.hit3 = 1 =>
               /\ FiniteAll(r.t, r.ip)
@@ -96,7 +93,8 @@ Unjudged(r) ==
     LET bx == [mn |-> Vals(r.t, r.mn), mx |-> Vals(r.t, r.mx)]
         pos == Vals(r.t, r.pos)
         dir == Vals(r.t, r.dir)
-    IN  MixedAxis(r.t, bx, pos, dir) \/ (Hit(bx, pos, dir) /\ ~ParOK(r.t, FirstContact(bx, pos, dir)))
+    IN  \/ (Hit(Resize(bx, pos, 1), pos, dir) /\ ~Hit(Resize(bx, pos, -1), pos, dir))
+        \/ (Hit(bx, pos, dir) /\ ~ParOK(r.t, FirstContact(bx, pos, dir)))
 
 Init == l = 1 /\ skipped = 0
 StepRec ==
